@@ -1318,15 +1318,20 @@ static qtreetbl_obj_t *remove_obj(qtreetbl_t *tbl, qtreetbl_obj_t *obj,
             cmp = tbl->compare(name, namesize, obj->name, obj->namesize);
         }
         if (cmp == 0) {
-            // copy min to this then remove min
+            // exchange key and value with the in-order successor, then remove
+            // the successor node, which releases this key and value with it.
+            // (No copy is made, so this cannot fail half way.)
             qtreetbl_obj_t *minobj = find_min(obj->right);
             assert(minobj != NULL);
-            free(obj->name);
-            free(obj->data);
-            obj->name = qmemdup(minobj->name, minobj->namesize);
+            qtreetbl_obj_t tmpobj = *obj;
+            obj->name = minobj->name;
             obj->namesize = minobj->namesize;
-            obj->data = qmemdup(minobj->data, minobj->datasize);
+            obj->data = minobj->data;
             obj->datasize = minobj->datasize;
+            minobj->name = tmpobj.name;
+            minobj->namesize = tmpobj.namesize;
+            minobj->data = tmpobj.data;
+            minobj->datasize = tmpobj.datasize;
             obj->right = remove_min(obj->right);
             tbl->num--;
         } else {
